@@ -124,7 +124,16 @@ impl Default for RunOpts {
 }
 
 /// Execute incarnation `i` of the plan stored in `dir/plan.json`.
-pub fn run_incarnation(bins: &Bins, plan: &Plan, dir: &Path, i: usize, opts: &RunOpts) -> IncResult {
+pub fn end_clock_ms(inc: &IncResult) -> Option<u64> {
+    for e in inc.events.iter().rev() {
+        if e.t == "summary" {
+            return e.msg.as_ref().and_then(|m| serde_json::from_str::<serde_json::Value>(m).ok()).and_then(|v| v["clock_ms"].as_u64());
+        }
+    }
+    None
+}
+
+pub fn run_incarnation(bins: &Bins, plan: &Plan, dir: &Path, i: usize, opts: &RunOpts, clock: Option<u64>) -> IncResult {
     let hist = dir.join("history.jsonl");
     let _ = std::fs::remove_file(&hist);
     let bin = if opts.use_asan && bins.asan.is_some() {
@@ -138,6 +147,7 @@ pub fn run_incarnation(bins: &Bins, plan: &Plan, dir: &Path, i: usize, opts: &Ru
         .arg("child")
         .arg("plan.json")
         .arg(i.to_string())
+        .arg(clock.map(|c| c.to_string()).unwrap_or_else(|| "-".into()))
         .current_dir(dir)
         .env("WALRUS_QUIET", "1")
         .env_remove("WALRUS_DATA_DIR")
@@ -159,8 +169,14 @@ pub fn run_plan(bins: &Bins, plan: &Plan, opts: &RunOpts) -> RunResult {
     let dir = new_run_dir();
     std::fs::write(dir.join("plan.json"), serde_json::to_vec(plan).unwrap()).expect("plan");
     let mut incs = Vec::new();
+    let mut prev_end: Option<u64> = None;
     for i in 0..plan.incarnations.len() {
-        let r = run_incarnation(bins, plan, &dir, i, opts);
+        let clock = match (plan.incarnations[i].clock_delta_ms, prev_end) {
+            (Some(d), Some(pe)) => Some((pe as i64 + d).max(1_000_000) as u64),
+            _ => None,
+        };
+        let r = run_incarnation(bins, plan, &dir, i, opts, clock);
+        prev_end = end_clock_ms(&r).or(clock).or(Some(plan.incarnations[i].clock_start_ms));
         let abnormal = !matches!(r.exit, Exit::Code(0) | Exit::Code(77));
         incs.push(r);
         if abnormal && opts.stop_on_abnormal {
